@@ -42,6 +42,24 @@ pub(crate) fn c05_timer_extent_contract() {
         }
         _ => assert!(e.is_none()),
     }
+    // the `ToExtent` view (what `Span::new` / the completions use) and the borrowed timer take ONE further reading each and
+    // give the same answer: a range from the start reading to that reading iff both exist - also for readings that go backwards
+    let e2 = emit::extent::ToExtent::to_extent(&timer);
+    assert!(clk.calls.get() == 3);
+    let tb = timer.by_ref();
+    assert!(tb.start_timestamp() == clk.t0);
+    let e3 = tb.extent();
+    assert!(clk.calls.get() == 4);
+    for e in [e2, e3] {
+        match (clk.t0, clk.t1) {
+            (Some(a), Some(b)) => {
+                let e = e.unwrap();
+                let r = e.as_range().unwrap();
+                assert!(r.start == a && r.end == b);
+            }
+            _ => assert!(e.is_none()),
+        }
+    }
     kani::cover!(true);
 }
 
